@@ -107,7 +107,7 @@ def who_may_call(run_, F, pc):
             t = bb["term"]
             if t["k"] == "call" and t["callee"] and re.search(r"io::(buffered|BufReader|Take|Chain)", t["callee"]["def"]):
                 run_.bad("WR", "%s uses %s" % (summ.fn_key(f), t["callee"]["def"]), "a buffering/adapting wrapper around the reader can over-read", f.where())
-    run_.floor("WR", 10)
+    run_.floor("WR", 4)   # at least read_exact, write_all and flush must be seen; how many call sites there are is code shape
 
 
 def flavor_agnostic(run_, F, pc):
